@@ -3,8 +3,8 @@ CONSTANTS U <- U_mid
  Datas <- Datas_1
  MaxLen = 1
  Depth = 0
- OpsOn = {"put", "get", "copy", "rename", "unlink", "dcreate", "dcreated", "dunlink", "symlink", "fexists", "dexists"}
+ OpsOn = {"put", "get", "copy", "copylim", "rename", "unlink", "dcreate", "dcreated", "dunlink", "symlink", "fexists", "dexists"}
 INVARIANT TypeOK
-PROPERTIES FailUnchanged CreateIff UnlinkExact ReadBack
+PROPERTIES FailUnchanged NoNewFileOnFail CreateIff UnlinkExact ReadBack
 CONSTRAINT Bound
 VIEW View
